@@ -10,8 +10,8 @@ BUILDER_DROP = c03.BUILDER_DROP
 SB_DROP = rules_builder.SB_DROP
 
 
-def run(chk, tier):
-    prog, T = typestate.engine("default")
+def run_config(chk, tier, cfgname):
+    prog, T = typestate.engine(cfgname)
     prog.edges()
     chk.explain("C18: (invisible) Drop for GcBuilder reaches GcPtr::dealloc and nothing else of the collector; "
                 "GcPtr::alloc and every builder constructor reach no metrics / link: an abandoned builder never "
@@ -199,3 +199,17 @@ def copy_slice(chk, prog):
         probs.append("no path rejects a wrong-length source")
     chk.inst("copy_slice-length-check", fn, not probs, detail="; ".join(sorted(set(probs))[:3]),
              sample={"fn": fn, "paths": len(outs), "copy_paths": copied, "rejecting_paths": failed})
+
+
+def run(chk, tier):
+    cfgs = typestate.configs(tier)
+    chk.extra["feature_configs"] = cfgs
+    for c in cfgs:
+        chk.cfg = c
+        n_expl = len(chk.explanation)
+        nd = len(chk.not_decided)
+        run_config(chk, tier, c)
+        if c != cfgs[0]:
+            del chk.explanation[n_expl:]
+            del chk.not_decided[nd:]
+    chk.cfg = None
